@@ -131,6 +131,15 @@ def op_edit_aux(src, n):
     return 'noop'
 
 
+def op_edit_submodule(src, n):
+    """the script of an existing submodule declares one more target"""
+    p = os.path.join(src, 'lib', 'build.bfg')
+    if not os.path.exists(p):
+        return 'noop'
+    with open(p, 'a') as f:
+        f.write("executable('subprog%d', ['l1.c'])\n" % n)
+
+
 def op_drop_find(src, n):
     """the script stops using find_files and starts executing a script that was no input before"""
     w(src, 'aux/build.bfg', "export(n=%d)\n" % n)
@@ -197,7 +206,8 @@ OPS = [('add-matching', op_add_match), ('add-nonmatching', op_add_nomatch), ('ad
        ('edit-options/submodule', op_edit_aux), ('add-excluded', op_add_excluded),
        ('drop-find_files', op_drop_find), ('edit-new-submodule', op_edit_new_submodule),
        ('add-empty-dir', op_add_empty_dir), ('fill-new-dirs', op_fill_new_dirs),
-       ('toolchain-drop-line', op_toolchain_drop), ('toolchain-edit', op_toolchain_edit)]
+       ('toolchain-drop-line', op_toolchain_drop), ('toolchain-edit', op_toolchain_edit),
+       ('edit-submodule-script', op_edit_submodule)]
 OPD = dict(OPS)
 
 
